@@ -172,6 +172,26 @@ def work_filters(ctx, seed):
             ctx.violation('api.filter_basis_sets', fp, 'filter(%r,%r,%r,%r): extra %s missing %s' % (substr, family, role, elements, extra, missing), replay)
 
 
+def work_version_elements(ctx, key):
+    """filter by an element that only some versions of an entry define: the entry stays, with exactly those versions"""
+    bse = impl.bse()
+    md = store.metadata()
+    e = md[key]
+    allz = set().union(*[set(vi['elements']) for vi in e['versions'].values()])
+    for z in sorted(allz, key=int):
+        have = [ver for ver, vi in e['versions'].items() if z in vi['elements']]
+        if len(have) == len(e['versions']):
+            continue
+        a = impl.call(bse.filter_basis_sets, None, None, None, [int(z)])
+        ctx.case(('filter-version-elements', key, z), True, 'filter:version-dependent-element')
+        replay = {'kind': 'filter', 'substr': None, 'family': None, 'role': None, 'elements': [int(z)]}
+        if a[0] != 'ok' or key not in a[1] or sorted(a[1][key]['versions']) != sorted(have):
+            got = sorted(a[1][key]['versions']) if a[0] == 'ok' and key in a[1] else None
+            ctx.violation('api.filter_basis_sets', 'version-dependent-element', 'filter(elements=[%s]): entry %r comes back with versions %s, versions defining the element are %s'
+                          % (z, key, got, sorted(have)), replay)
+        break       # one element per entry is enough
+
+
 def work_generated(ctx, seed):
     rng = random.Random(seed)
     from basis_set_exchange import curate
@@ -238,6 +258,8 @@ def run(ctx):
     store.parallel(ctx, work_regen, groups)
     store.parallel(ctx, work_entry, sample)
     store.parallel(ctx, work_filters, [ctx.seed * 31 + i for i in range(ctx.budget(14, 400))])
+    uneven = [k for k, e in md.items() if len({frozenset(vi['elements']) for vi in e['versions'].values()}) > 1]
+    store.parallel(ctx, work_version_elements, uneven if ctx.thorough() else ctx.rng.sample(uneven, min(12, len(uneven))))
     store.parallel(ctx, work_generated, [ctx.seed * 17 + i for i in range(ctx.budget(40, 1500))])
 
 
